@@ -1174,7 +1174,7 @@ def lexer_case(v: str, src: str, own: bool = False):
     p.tokens = iter(matches)
     syms, err = [], '-'
     registered = True
-    for _ in range(len(matches) + 2):
+    for _ in range(len(matches) + len(src) + 2):   # (re-tokenization after a comment can yield more tokens)
         try:
             out, _site, _v = in_process_guard((lambda: p.advance()) if own else (lambda: tdop.Parser.advance(p)))
         finally:
